@@ -132,6 +132,7 @@ func stripNoise(s string) string {
 
 var errClasses = []struct{ sub, cls string }{
 	{"error during Run:", "panic"},
+	{"returned nil", "panic"}, // a host function that hands back nil: the same class as the crash it used to be
 	{"maximum call depth", "callDepth"},
 	{"attempted division by zero", "div0"},
 	{"type mismatch", "typeMismatch"},
@@ -177,6 +178,9 @@ func hexs(s string) string { return hex.EncodeToString([]byte(s)) }
 func showValue(o object.Object) string {
 	if o == nil {
 		return "NIL:"
+	}
+	if rv := reflect.ValueOf(o); rv.Kind() == reflect.Ptr && rv.IsNil() {
+		return "NILPTR:" // a nil pointer of an object type handed out as a value: the harness must not trip over it
 	}
 	return string(o.Type()) + ":" + hexs(o.Inspect())
 }
@@ -389,6 +393,15 @@ func hostFunc(f HostFn) func(args []object.Object) object.Object {
 			// keeps the slice it was handed (a host is entitled to: the arguments belong to the call)
 			return &object.Array{Elements: args}
 		case "nil":
+			// Go's other way of handing back nothing: a nil POINTER of an object type inside the interface
+			switch f.I {
+			case 1:
+				return (*object.String)(nil)
+			case 2:
+				return (*object.Integer)(nil)
+			case 3:
+				return (*object.Array)(nil)
+			}
 			return nil
 		case "panic":
 			// hosts panic with all sorts of values: a string, an error, an integer, a struct, nil-valued things
@@ -569,7 +582,7 @@ runSeries:
 		fmt.Fprintf(&sb, " p%d=%d", i, ctx.calls)
 		if has(c.Show, "spec") {
 			t := "-"
-			if escaped == "" && err == nil && out != nil {
+			if escaped == "" && err == nil && out != nil && !(reflect.ValueOf(out).Kind() == reflect.Ptr && reflect.ValueOf(out).IsNil()) {
 				if out.True() {
 					t = "1"
 				} else {
